@@ -467,6 +467,19 @@ class Translator:
                 a = b = (None, None)
             if a[1] == "onat" and b[1] == "nat":
                 return f"(pyOr {a[0]} {b[0]})", "nat"
+        if isinstance(n, ast.IfExp):
+            # conditional expression `a if test else b`: both arms of one type (nat/int mixed -> int, `None` arm -> Optional)
+            p = self.prop(n.test, env)
+            if p == "True":
+                return self.ex(n.body, self.refine(env, n.test, True))
+            if p == "False":
+                return self.ex(n.orelse, self.refine(env, n.test, False))
+            a = self.ex(n.body, self.refine(env, n.test, True))
+            b = self.ex(n.orelse, self.refine(env, n.test, False))
+            t = self.unify({a[1], b[1]}, n) if a[1] != b[1] else a[1]
+            if t not in LEAN_T or t in ("str", "ret", "unit"):
+                bad(n, f"conditional expression of type {t}")
+            return f"(if {p} then {self.coerce(a, t, n)} else {self.coerce(b, t, n)})", t
         if isinstance(n, (ast.Compare, ast.BoolOp, ast.UnaryOp)):
             p = self.prop(n, env)
             return ("true" if p == "True" else "false" if p == "False" else f"(decide {p})"), "bool"
